@@ -45,6 +45,7 @@ fn main() {
     let mut ctx = core::Ctx::new(seed ^ 0xC0FFEE, scale);
     if args.len() > 5 && args[5] == "--sym" {
         ctx.sym = true;
+        ctx.sym_preds_on = prop == "C17";
     } else if args.len() > 6 && args[5] == "--probe" {
         ctx.probes = Some(core::read_probes(&args[6]));
     } else if args.len() > 5 {
@@ -76,6 +77,7 @@ fn main() {
     std::fs::create_dir_all(outdir).unwrap();
     if ctx.sym {
         core::write_sym(&format!("{}/sym.jsonl", outdir), &ctx.sym_fns);
+        core::write_sym_preds(&format!("{}/sym_preds.jsonl", outdir), &ctx.sym_preds);
         let paths: usize = ctx.sym_fns.iter().map(|f| f.paths.len()).sum();
         println!("sym functions={} paths={} unsupported={}", ctx.sym_fns.len(), paths, ctx.sym_fns.iter().filter(|f| f.unsupported.is_some()).count());
         return;
